@@ -1,4 +1,5 @@
 """C28 — a copied index directory is self-contained (partial)."""
+import re
 from sa import names as N
 from sa.prog import Site, Slice, TERM, callee_of, op_local, op_place, place_fields
 from sa.rules.common import is_test_or_bench, entry_ancestors
@@ -33,12 +34,43 @@ def reroot_stores(P, f):
     return out
 
 
+def _reroot_closure_stores(P, f):
+    """[(for_each block, terminator, closure, store Site, root ok, id ok)]: closures handed to Iterator::for_each in f whose body stores
+    directory::segment_paths(<captured root>, <element>.id) into <element>.paths on every path"""
+    out = []
+    sl = Slice(f, through_all_calls=True)
+    for b, t in f.calls():
+        if not re.search(r"Iterator>?::for_each$", callee_of(t)) or len(t["args"]) < 2:
+            continue
+        for y in sl.sources(t["args"][1]):
+            if not (y[0] == "agg" and y[3].get("closure") and P.fn(y[3]["closure"]) is not None):
+                continue
+            g = P.fn(y[3]["closure"])
+            for (ssite, root_op, elem, id_ok) in reroot_stores(P, g):
+                # the store is unconditional in the closure, the element is the closure's parameter
+                uncond = all(g.dominates_block(ssite.b, rb) for rb in g.reachable() if g.blocks[rb]["term"]["k"] == "return")
+                elem_is_param = any(x[0] == "arg" and x[1] >= 2 for x in Slice(g).sources({"cp": {"l": elem, "p": []}})) or elem >= 2 and elem <= g.arg_count
+                # the captured root: follow the upvar to the aggregate's operand in f
+                root_ok = False
+                gs = Slice(g)
+                ups = [str(z).replace("upvar:", "").lstrip("*") for x in gs.sources(root_op) if x[0] == "field" for z in x[2] if str(z).startswith("upvar:")]
+                names = y[3].get("upvars") or []
+                for k_, o in enumerate(y[3]["ops"]):
+                    nm = names[k_] if k_ < len(names) else None
+                    if ups and (nm is None or nm in ups):
+                        srcs = Slice(f).sources(o)
+                        if any(x[0] == "field" and x[1] == 1 and "path" in x[2] for x in srcs) or (1 in Slice(f).args(o) and "path" in Slice(f).fields(o)):
+                            root_ok = True
+                out.append((b, t, g, ssite, root_ok, id_ok and uncond and elem_is_param))
+    return out
+
+
 def r28a(ctx, P):
     rid = "R28.a"
     ctx.rule(rid, "FLOW: in Index::open_with_storage a Manifest obtained from Manifest::load reaches the InnerIndex value only after "
                   "a loop over its segments (iter_mut, no skipping path) stored directory::segment_paths(<derived from opts.path>, "
                   "<that segment's id>) into every SegmentMeta.paths; Manifest::load is called from nowhere else")
-    f = P.inlined(OPEN, depth=1, keep=(N.MAN_LOAD, SEG_PATHS_FN))      # a re-rooting helper / a constructor helper are read in place
+    f = P.inlined(OPEN, depth=2, keep=(N.MAN_LOAD, SEG_PATHS_FN))      # a re-rooting helper / a constructor helper are read in place
     if not ctx.anchor(rid, f, "Index::open_with_storage"):
         return
     ctx.saw(f)
@@ -49,6 +81,7 @@ def r28a(ctx, P):
             and s["rv"].get("adt") == N.INNER]
     ctx.floor(rid + ".sink", len(aggs), 1, "InnerIndex construction in open_with_storage")
     stores = reroot_stores(P, f)
+    closure_stores = _reroot_closure_stores(P, f)
     key = "%s:Index::open_with_storage:reroot-loaded-manifest" % rid
     for lb, lt in loads:
         lsite = Site(f, lb)
@@ -90,13 +123,51 @@ def r28a(ctx, P):
                         why = "an iteration of the re-rooting loop can skip the store"
             if loop_ok:
                 good = ssite
+        if good is None:
+            # `manifest.segments.iter_mut().for_each(|seg| seg.paths = segment_paths(root, &seg.id))`: every element is visited
+            for (fb, ft, g_, ssite, root_ok_, id_ok_) in closure_stores:
+                src = Slice(f, through_all_calls=True).sources(ft["args"][0])
+                from_load = any(x[0] == "call" and x[1] == lb for x in src)
+                seg_field = any(x[0] == "field" and "segments" in x[2] for x in src)
+                it_mut = any(x[0] == "call" and callee_of(x[2]).endswith("::iter_mut") for x in src)
+                doms = all(f.cfg_path(lb, a.b, avoid=[fb]) is None for a in aggs)
+                if not id_ok_:
+                    why = "the id passed to segment_paths is not the id of the segment being rewritten"
+                elif not root_ok_:
+                    why = "the root passed to segment_paths does not derive from opts.path"
+                elif from_load and seg_field and it_mut and doms and f.dominates(lsite, Site(f, fb)):
+                    from sa.rules.common import chain_filters
+                    dropping = chain_filters(P, f, ft["args"][0])
+                    if dropping:
+                        why = "the re-rooting iterator chain drops elements (Iterator::%s): some segments keep their deserialised paths" % dropping[0][0]
+                    else:
+                        good = ssite
         ctx.ob(rid, key, good is not None,
                "the manifest loaded at %s is re-rooted at the opened directory (store at %s) before it is published" % (lsite.loc(), good.loc())
                if good else "the manifest loaded at %s reaches the index state with the segment paths that were deserialised from "
                             "MANIFEST.json (%s): a copied index reads, rewrites and deletes files under its original path" % (lsite.loc(), why),
                lsite.loc())
     callers = entry_ancestors(P, N.MAN_LOAD, stop=lambda p: True, skip=is_test_or_bench)
+    def only_from_open(c, depth=0):
+        h = P.fns.get(c)
+        if c == OPEN:
+            return True
+        if h is None or h.vis == "Public" or depth > 3:
+            return False
+        cs = {q for q, g_ in P.fns.items() if not is_test_or_bench(g_) and any(callee_of(t_) == c for b_, t_ in g_.calls())}
+        roots_ = set()
+        for q in cs:
+            g_ = P.fns[q]
+            while g_.kind == "closure" and g_.parent and P.fn(g_.parent):
+                g_ = P.fn(g_.parent)
+            roots_.add(g_.path)
+        return bool(roots_) and all(only_from_open(q, depth + 1) for q in roots_)
     for c in sorted(callers):
+        if c != OPEN and only_from_open(c):
+            ctx.ob(rid, "%s:Manifest::load:caller:%s" % (rid, "index::Index::open_with_storage"), True,
+                   "Manifest::load is called from %s, a private helper of Index::open_with_storage only (read in place above)" % P.fns[c].short,
+                   "%s:%s" % (P.fns[c].file, P.fns[c].line))
+            continue
         ctx.ob(rid, "%s:Manifest::load:caller:%s" % (rid, P.fns[c].short if c in P.fns else c), c == OPEN,
                "Manifest::load is called from Index::open_with_storage" if c == OPEN else
                "Manifest::load is also called from %s, which does not re-root the segment paths" % c,
@@ -122,7 +193,7 @@ def r28b(ctx, P):
                   "Path::join(<root parameter>, format!(.. <id parameter> ..)); every call of segment_paths / wal_path / "
                   "manifest_path / SegmentWriter::new passes a root derived from IndexOptions.path / InnerIndex.path / "
                   "SegmentWriter.root")
-    sp = P.fn(SEG_PATHS_FN)
+    sp = P.inlined(SEG_PATHS_FN, depth=1)        # a `root.join(name)` helper shared by the fields is read in place
     adt = P.adts.get(SEGPATHS)
     if not (ctx.anchor(rid, sp, "directory::segment_paths") and ctx.anchor(rid, adt, "SegmentPaths")):
         return
@@ -141,6 +212,8 @@ def r28b(ctx, P):
                        "SegmentPaths constructed outside directory::segment_paths in %s" % g.short, Site(g, b, i).loc())
                 if p == SEG_PATHS_FN:
                     sl = Slice(sp, through_all_calls=True)
+                    # the same literal in the inlined view
+                    s = next((s2 for b2, i2, s2 in sp.stmts() if s2["k"] == "assign" and s2["rv"]["k"] == "agg" and s2["rv"].get("adt") == SEGPATHS), s)
                     for fname, o in zip(s["rv"]["fields"], s["rv"]["ops"]):
                         src = sl.sources(o)
                         joins = [x for x in src if x[0] == "call" and callee_of(x[2]) == "std::path::Path::join"]
@@ -169,6 +242,17 @@ def r28b(ctx, P):
             sl = Slice(g)
             root = t["args"][builders[cal]]
             fl = sl.fields(root)
+            if g.kind == "closure" and g.parent and P.fn(g.parent) is not None and any(str(z).startswith("upvar:") for z in fl):
+                # the root is captured: continue with what the enclosing function captured
+                par_ = P.fn(g.parent)
+                up_ = [str(z).replace("upvar:", "").lstrip("*") for z in fl if str(z).startswith("upvar:")]
+                for pb_, pi_, ps_ in par_.stmts():
+                    if ps_["k"] == "assign" and ps_["rv"]["k"] == "agg" and ps_["rv"].get("closure") == g.path:
+                        for o_ in ps_["rv"]["ops"]:
+                            nm_ = {par_.locals[l_].get("name") for l_ in Slice(par_).locals(o_) | ({op_local(o_)} if op_local(o_) is not None else set())}
+                            if nm_ & set(up_):
+                                g, sl, root = par_, Slice(par_), o_
+                                fl = sl.fields(root)
             ok = bool({"path", "root"} & fl) or (g.path in (N.INDEX + "::create_with_storage", N.INDEX + "::create") and 1 in sl.args(root)) \
                 or (g.path == N.INNER + "::manifest_path")
             if not ok and g.vis != "Public" and g.kind != "closure":
